@@ -4,6 +4,7 @@ C04 — neighbors() follows exactly the documented direction / unknown-type / fi
 Case: {"g": graph desc (eglib/graphs.py), "f": filter spec | None}
 Every vertex x 3 directions x 3 unknown-handling modes is evaluated per case.
 """
+from eglib import h
 import itertools
 
 from hypothesis import strategies as st
@@ -87,13 +88,13 @@ def run_real(vs, v, d, u, ff, vi, churn=False):
         # caching on: a throw-away filter of other behaviour first, then a NEW callable with the case's truth table
         # (short-lived filter objects must not be confused with one another)
         try:
-            helpers.neighbors(vs[v], d, u, lambda e, x: False)
+            h.neighbors(vs[v], d, u, lambda e, x: False)
         except NotImplementedError:
             pass
         inner = ff
         ff = lambda e, x: inner(e, x)
     try:
-        out = helpers.neighbors(vs[v], d, u, ff)
+        out = h.neighbors(vs[v], d, u, ff)
     except NotImplementedError:
         return "NIE"
     return [vi.get(id(x), "?") if x is not None else None for x in out]
